@@ -46,7 +46,18 @@ def builtin_geometry(ctx: Ctx) -> None:
             else:
                 from classy_blocks.construct.shapes.sphere import EighthSphere
                 shape = EighthSphere(c0, vadd(c0, [r0, 0, 0]), [0, 0, 1])
+            second = rng.random() < 0.5
+            if second:
+                # one edge that lies on the sphere is projected to a second surface as well (its label list has two entries)
+                cand = [(op, c1, c2) for op in shape.operations for c1, c2, data in op.edges.get_all_beams()
+                        if data.kind == "project" and shape.geometry_label in data.label]
+                if cand:
+                    op, c1, c2 = rng.choice(cand)
+                    op.project_edge(c1, c2, "floor")
+                    steps = ["second-surface"] + steps
             for st in steps:
+                if st == "second-surface":
+                    continue
                 if st == "translate":
                     d = [rng.uniform(-4, 4) for _ in range(3)]
                     shape.translate(d)
@@ -66,6 +77,7 @@ def builtin_geometry(ctx: Ctx) -> None:
             shape.chop_tangential(count=2)
             mesh = cb.Mesh()
             mesh.add(shape)
+            mesh.add_geometry({"floor": ["type searchablePlane", "planeType pointAndNormal", "point (0 0 0)", "normal (0 0 1)"]})
             path = os.path.join(ctx.tmp, "sphere.bmd")
             if os.path.exists(path):
                 os.remove(path)
@@ -90,11 +102,15 @@ def builtin_geometry(ctx: Ctx) -> None:
         ctx.evaluated(f"builtin:{kind}:{steps}:{i}")
         used = {q["label"] for q in parsed["faces"]}
         defined = parsed["geometry"]
-        if not used or not used <= set(defined):
+        everywhere = used | {l for e in parsed["edges"] if e["kind"] == "project" for l in e["data"]} | {l for v in parsed["vertices"] for l in v["proj"]}
+        if not used or not everywhere <= set(defined):
+            used = everywhere
             ctx.violation(f"builtin-geometry:{kind}:undefined-label:{tag}", f"projected to {sorted(used)}, defined {sorted(defined)}", {"steps": steps})
             continue
         V = [list(v["p"]) for v in parsed["vertices"]]
         for q in parsed["faces"]:
+            if q["label"] == "floor":
+                continue
             props = " ".join(defined[q["label"]])
             m_c = re.search(r"centre\s*\(([^)]*)\)", props)
             m_r = re.search(r"radius\s+([-+0-9.eE]+)", props)
